@@ -1,10 +1,12 @@
 package main
 
 import (
+	"bufio"
 	"encoding/json"
 	"flag"
 	"fmt"
 	"os"
+	"os/exec"
 	"path/filepath"
 	"strings"
 	"sync"
@@ -60,89 +62,152 @@ func cmdRun(args []string) int {
 	out := fs.String("out", "", "output dir for trace shards")
 	seed := fs.Int64("seed", 1, "seed")
 	tier := fs.String("tier", "quick", "tier")
-	workers := fs.Int("workers", 16, "workers")
-	shards := fs.Int("shards", 8, "trace shards")
+	workers := fs.Int("workers", 16, "worker processes")
+	shards := fs.Int("shards", 8, "ignored (one shard per worker)")
+	child := fs.Int("child", -1, "internal: index of this worker process")
 	fs.Parse(args)
+	_ = shards
 
 	h, ok := handlers[*prop]
 	if !ok {
-		fmt.Fprintln(os.Stderr, "no handler for", *prop)
-		return 2
-	}
-	cs, err := readCases(*cases)
-	if err != nil {
-		fmt.Fprintln(os.Stderr, "cases:", err)
+		fmt.Fprintln(realStderr, "no handler for", *prop)
 		return 2
 	}
 	os.MkdirAll(*out, 0o755)
-	e := &env{prop: *prop, seed: *seed, tier: *tier}
+	if *child >= 0 {
+		return runChild(h, *prop, *cases, *out, *seed, *tier, *workers, *child)
+	}
+	// parent: one single-threaded worker process per shard (the verif hooks record
+	// one call at a time per process)
+	n := countLines(*cases)
+	if n < *workers*4 {
+		*workers = 1 + n/8
+	}
 	start := time.Now()
-
-	if *shards > len(cs) {
-		*shards = 1
+	type res struct {
+		st  stats
+		err error
 	}
-	writers := make([]*traceWriter, *shards)
-	names := make([]string, *shards)
-	wmu := make([]sync.Mutex, *shards)
-	for i := range writers {
-		names[i] = filepath.Join(*out, fmt.Sprintf("trace-%02d.ndjson", i))
-		w, err := newTraceWriter(names[i])
-		if err != nil {
-			fmt.Fprintln(os.Stderr, err)
-			return 2
-		}
-		writers[i] = w
-	}
-
-	st := stats{}
-	var smu sync.Mutex
-	jobs := make(chan int, 1024)
+	results := make([]res, *workers)
 	var wg sync.WaitGroup
-	hung := false
+	self, _ := os.Executable()
 	for w := 0; w < *workers; w++ {
 		wg.Add(1)
-		go func() {
+		go func(w int) {
 			defer wg.Done()
-			for i := range jobs {
-				evs := h(cs[i], e)
-				sh := i % *shards
-				wmu[sh].Lock()
-				for _, ev := range evs {
-					writers[sh].emit(ev)
-				}
-				wmu[sh].Unlock()
-				smu.Lock()
-				st.Runs++
-				st.Events += len(evs)
-				for _, ev := range evs {
-					switch ev["ev"] {
-					case "Panic":
-						st.Panics++
-					case "Hang":
-						st.Hangs++
-						hung = true
-					}
-				}
-				smu.Unlock()
+			cmd := exec.Command(self, "run", "-prop", *prop, "-cases", *cases, "-out", *out, "-seed", fmt.Sprint(*seed),
+				"-tier", *tier, "-workers", fmt.Sprint(*workers), "-child", fmt.Sprint(w))
+			cmd.Env = append(os.Environ(), "GOMAXPROCS=2")
+			b, err := cmd.Output()
+			if err != nil {
+				results[w].err = fmt.Errorf("worker %d: %v", w, err)
+				return
 			}
-		}()
+			lines := strings.Split(strings.TrimSpace(string(b)), "\n")
+			if err := json.Unmarshal([]byte(lines[len(lines)-1]), &results[w].st); err != nil {
+				results[w].err = fmt.Errorf("worker %d: bad stats: %v", w, err)
+			}
+		}(w)
 	}
-	for i := range cs {
-		jobs <- i
-		if hung {
-			break
+	wg.Wait()
+	total := stats{Counter: map[string]int{}}
+	for _, r := range results {
+		if r.err != nil {
+			fmt.Fprintln(realStderr, r.err)
+			return 2
+		}
+		total.Runs += r.st.Runs
+		total.Events += r.st.Events
+		total.Panics += r.st.Panics
+		total.Hangs += r.st.Hangs
+		total.Shards = append(total.Shards, r.st.Shards...)
+		for k, v := range r.st.Counter {
+			total.Counter[k] += v
 		}
 	}
-	close(jobs)
-	wg.Wait()
-	for _, w := range writers {
-		w.close()
+	total.Wall = time.Since(start).Seconds()
+	b, _ := json.Marshal(total)
+	os.WriteFile(filepath.Join(*out, "stats.json"), b, 0o644)
+	fmt.Println(string(b))
+	return 0
+}
+
+func countLines(path string) int {
+	f, err := os.Open(path)
+	if err != nil {
+		return 0
 	}
+	defer f.Close()
+	n := 0
+	sc := bufio.NewScanner(f)
+	sc.Buffer(make([]byte, 1<<20), 64<<20)
+	for sc.Scan() {
+		if len(sc.Bytes()) > 0 {
+			n++
+		}
+	}
+	return n
+}
+
+// runChild handles the cases whose line number is congruent to idx modulo workers.
+func runChild(h handler, prop, cases, out string, seed int64, tier string, workers, idx int) int {
+	f, err := os.Open(cases)
+	if err != nil {
+		fmt.Fprintln(realStderr, err)
+		return 2
+	}
+	defer f.Close()
+	name := filepath.Join(out, fmt.Sprintf("trace-%02d.ndjson", idx))
+	w, err := newTraceWriter(name)
+	if err != nil {
+		fmt.Fprintln(realStderr, err)
+		return 2
+	}
+	e := &env{prop: prop, seed: seed, tier: tier}
+	st := stats{Shards: []string{name}}
+	start := time.Now()
+	sc := bufio.NewScanner(f)
+	sc.Buffer(make([]byte, 1<<20), 64<<20)
+	n := 0
+	for sc.Scan() {
+		line := sc.Bytes()
+		if len(line) == 0 {
+			continue
+		}
+		n++
+		if (n-1)%workers != idx {
+			continue
+		}
+		var c Case
+		if err := json.Unmarshal(line, &c); err != nil {
+			fmt.Fprintln(realStderr, "case line", n, err)
+			return 2
+		}
+		if c.ID == 0 {
+			c.ID = n
+		}
+		evs := h(c, e)
+		st.Runs++
+		st.Events += len(evs)
+		stop := false
+		for _, ev := range evs {
+			w.emit(ev)
+			switch ev["ev"] {
+			case "Panic":
+				st.Panics++
+			case "Hang":
+				st.Hangs++
+				stop = true
+			}
+		}
+		if stop {
+			break // a hung call leaves its goroutine (and the recorder) behind
+		}
+	}
+	w.close()
 	st.Wall = time.Since(start).Seconds()
-	st.Shards = names
 	st.Counter = counter
 	b, _ := json.Marshal(st)
-	os.WriteFile(filepath.Join(*out, "stats.json"), b, 0o644)
 	fmt.Println(string(b))
 	return 0
 }
